@@ -729,6 +729,14 @@ def _workload(tier, rng, shard, nshards):
         _ = t.timestamps
         if kind == "I":
             call(t.getNonEntries)
+            if ents and rng.random() < 0.1:
+                # neighbours that nearly touch: what lies between them - a billionth of a second, a few ulps - is unlabelled time all
+                # the same, and what lies between two that do touch is nothing
+                gap = rng.choice([2.0 ** -30, 3e-9, 5e-12, 0.0])
+                e = ents[-1]
+                nxt = (e[1] + gap, e[1] + gap + 0.25, "nx")
+                REC.cls("C15:getNonEntries:sliver-between-neighbours")
+                call(make_tier("I", "q", list(ents) + [nxt], lo, max(hi, nxt[1] + rng.choice([0.0, 2e-9, 0.5]))).getNonEntries)
         # sample series
         bounds = [v for e in ents for v in e[:-1]] or [0.5]
         rows = []
